@@ -248,6 +248,15 @@ func c18Endings(r *Run) {
 	if ending == 3 {
 		rc.Raw.CloseWrite()
 	}
+	// a peer that sends its Close frame and is gone at once: the echo cannot be
+	// written any more, the Close frame was received all the same
+	peerGone := ending <= 2 && t.Pct(35)
+	if peerGone {
+		rc.Raw.Close()
+		sig0 := "peer-gone"
+		r.D("peer", sig0)
+		r.S.Count("probe.close-frame-then-peer-gone")
+	}
 	var got []byte
 	var errs []error
 	closeAtOnce := t.Pct(40)
@@ -269,7 +278,11 @@ func c18Endings(r *Run) {
 		}
 		c.CloseNow()
 	})
-	r.S.Go("peer", func() { peer.Drain() })
+	if peerGone {
+		sig += ",peer-gone"
+	} else {
+		r.S.Go("peer", func() { peer.Drain() })
+	}
 	r.S.Loop()
 	if r.S.Aborted != "" {
 		if r.S.Aborted == "sim-time" {
